@@ -7,6 +7,7 @@ names="$@"; [ -z "$names" ] && names=$(ls -d seeded/C*/ | xargs -n1 basename)
 mkdir -p /tmp/sr
 for n in $names; do
   prop=$(python3 -c "import json;print(json.load(open('seeded/$n/meta.json'))['property'])")
+  if python3 -c "import json,sys;sys.exit(0 if 'superseded' in json.load(open('seeded/$n/meta.json')) else 1)"; then echo "$n $prop SUPERSEDED (see meta.json)"; continue; fi
   wt=/tmp/sr/$n
   git -C /repo worktree remove --force $wt >/dev/null 2>&1
   git -C /repo worktree add --detach $wt HEAD -q || { echo "$n WORKTREE-FAILED"; continue; }
